@@ -1252,7 +1252,7 @@ func main() {
 		c.Hist["store:tip-following-mode"] == 0 || c.Hist["pre-confirmed-poller-enabled"] == 0 {
 		c.Violation("generator-degenerate", fmt.Sprintf("a pipeline mode was not exercised in this run: %v", c.Extra["pipeline_coverage"]), nil, true)
 	}
-	c.Extra["model_events"] = "SrcExtend SrcReorg FetchOk FetchErr FetchCorrupt FetchLatest FetchStaleHead FetchLatestErr ReorgCheck Verify VerifyFail StoreOk StoreParentMismatch StoreFail RevFetchOk RevFetchErr RevertOne RevertStop Reset NotifyReorg NotifyNewHead"
+	c.Extra["model_events"] = "SrcExtend SrcReorg FetchOk FetchErr FetchCorrupt FetchUnstorable FetchLatest FetchStaleHead FetchLatestErr ReorgCheck Verify VerifyFail StoreOk StoreParentMismatch StoreFail RevFetchOk RevFetchErr RevertOne RevertStop Reset NotifyReorg NotifyNewHead"
 	c.Finish("every observed store/revert/notification is an enabled step of the extracted model given what the scripted source served; history_ok on the implementation's trace; final chain = source chain")
 }
 
